@@ -69,6 +69,8 @@ def run(ctx):
     cases += [dict(je.gen_many_conflicts_case(ctx.rng, which=w), kind=PID.lower()) for w in (["overlap>1024", "precedence>1024"] if ctx.quick else ["overlap>1024", "overlap>2048", "precedence>1024", "precedence>2048"] * 3)]
     # >= 3 operations on one machine with windows of different width / offset (full 2^n sweep)
     cases += [dict(je.gen_shared_machine_case(ctx.rng, share=None), kind=PID.lower()) for _ in range(ctx.n(25, 300))]
+    # two or three jobs that fill the limit exactly (no qubits) sharing machines with jobs that have slack; penalties close together
+    cases += [dict(je.gen_tight_jobs_case(ctx.rng, share=None), kind=PID.lower()) for _ in range(ctx.n(60, 600))]
     je.assign_objects(ctx.rng, cases)
     for c in cases:
         summ = je.examiner(c)(ctx, batch, c, WANT, ctx.rng)
